@@ -102,7 +102,8 @@ def main(argv=None):
         for ckey, st in cl.items():
             if st == "proved":
                 continue
-            bst = base.get("clauses", {}).get(ckey)
+            # a clause with no obligation at baseline (e.g. "no X escapes" when no path raised X) held vacuously there
+            bst = base.get("clauses", {}).get(ckey, "proved" if key in baseline else None)
             obs = [o for o in r["obligations"] if f"{o['kind']}::{o['clause']}" == ckey and o["status"] != "proved"]
             entry = {"function": key, "clause": ckey, "obligations": [o["name"] for o in obs], "solver": [f"{o['status']}: {o['detail'][:200]}" for o in obs][:3],
                      "was_proved": bst == "proved", "code_changed": base.get("ast_hash") not in (None, r.get("ast_hash")),
